@@ -129,6 +129,38 @@ CHECKS = {
             "finding (minor axis of large ellipses outside the locally-linear regime).",
             "TLC-enumerated configuration lattice + relational trace validation by TLC on fixed-point projections of real WCSHelper calls",
             "4/C16"),
+    "C10": ("model_checking",
+            "Masking.tla defines MaskImage/MaskCube/MaskTable and the property's clauses; TLC checks exactness, complementarity of the two negate "
+            "settings, plane identity, order/column preservation and NaN-never-inside over all images up to 3x4 over {value, blank} x 35 membership "
+            "patterns x negate x planes {1,2} and all tables of <= 5 rows over {inside, outside, NaN-ra, NaN-dec}, and shows the index-origin "
+            "counterexample of the originally coded design. Spec->code: every emitted case is executed with both negate settings on mask_plane, "
+            "mask_file (2-D/3-D/4-D) and mask_table/mask_catalog; membership is realised by a real WCS and a Region(maxdepth=10) of the HEALPix "
+            "pixels containing the chosen pixel centres. Code->spec: seeded random images up to 64x64 (SIN/TAN/ZEA, CRPIX off-image, circle/polygon "
+            "regions at depth 8-12, CLI) with a per-pixel oracle, random tables (custom columns, empty, NaN). All validated per clause by TLC "
+            "(Masking_Trace).",
+            "astropy.wcs and healpy ang2pix trusted; pixel centres within 1e-6 deg of a HEALPix edge are not compared; rotation-free headers.",
+            "TLA+ model checking with TLC + replay of TLC-enumerated inputs on MIMAS + TLC trace validation of per-pixel / per-row token records",
+            "4/C10"),
+    "C18": ("model_checking",
+            "Catalogue.tla is the catalogue store state machine (BeginSave/WriteRow/EndSave/Load over file -> rows of value tokens, per-type split "
+            "into _comp/_isle/_simp, precision classes exact64 / single32 / sqlite); TLC checks SplitHolds, ConcatLaw, IdentityExact, Exact64, "
+            "Single32, NaN/-1 preservation etc. over type mixes x formats x prefixes. Every TLC-emitted catalogue shape x 7 formats x prefix on/off "
+            "and seeded catalogues of 1..3000 rows are written with the real save_catalog and read back (load_table + table_to_source_list, "
+            "sqlite3); IEEE-754 hex tokens of input and output rows are validated by TLC against Expected(s) (Catalogue_Trace).",
+            "single precision accepts either float32 neighbour; SQLite stores NaN as NULL; values within 1e-30..1e30; uuids contain a letter.",
+            "TLA+ state machine + TLC invariants; bounded-exhaustive spec->code replay; code->spec batch trace validation",
+            "4/C18"),
+    "C09": ("exploration",
+            "ShapeCover.tla states the rule (inside the radius => member; beyond r + 3 pixel sizes => not a member; area between the two caps; "
+            "polygon interior => member, beyond circumscribed circle + 3 pixel sizes => not) with the pixel-size table as a spec constant; "
+            "MC_ShapeConfig lets TLC enumerate and prune the configuration lattice (centre class incl. poles / RA wrap / integer origin x depth "
+            "3..12 x radius class x units x argument form x shape, 5544 feasible points) and prove table/area-comparison lemmas; each point is "
+            "instantiated with seeded centres/radii and ~200 query points (interior, rings just inside r and just beyond r+3 pixels, far, poles, "
+            "both sides of RA=0) on the real Region and TLC validates every record (Shape_Trace).",
+            "distances are computed by the harness (atan2 vector formula) and kept >= 1e-6 relative from thresholds; healpy pix2vec trusted for the "
+            "cap-area cross-check; convex polygons inscribed in a small circle.",
+            "TLC-enumerated configuration lattice + relational trace validation by TLC on fixed-point projections of real Region queries",
+            "4/C09"),
 }
 
 NOT_YET = "check not built yet in this round of construction (planned, see DESIGN.md section 4)"
